@@ -485,8 +485,9 @@ def run(ctx):
     # the tie through translation (DESIGN.md §11.6): the weighted sums of the 1-D / 2-D / 3-D branches as written are the terms
     # `Covfie.Lin.*_translated` are about; a branch whose text changed gets the thorough tier's fields and points
     from harness import translib as T
-    tie = T.Tie(ctx, ["lin1", "lin2", "lin3", "lin_generic"])
-    deep_dims = {T.LIN[k] for k in tie.changed() if k in T.LIN} | ({4, 5} if "lin_generic" in tie.changed() else set())
+    tie = T.Tie(ctx, ["lin1", "lin2", "lin3", "lin_generic", "context"])
+    deep_dims = {T.LIN[k] for k in tie.changed() if k in T.LIN} | ({4, 5} if "lin_generic" in tie.changed() else set()) \
+        | ({1, 2, 3, 4, 5} if "context" in tie.changed() else set())
     cfgs = ["dbg", "rel", "isa"]      # isa: code guarded by __FMA__ / __AVX2__ / __SSE4_1__ is compiled and run (contraction stays off)
     failed = build(ctx.work, combos, cfgs)
     tasks = []
